@@ -553,6 +553,11 @@ func (u *Unmarshaler) processAnonymousStructFieldOptional(fieldType reflect.Type
 			return err
 		}
 
+		// parseOptionsWithContext leaves the key of a member without options as it is
+		if u.opts.canonicalKey != nil {
+			fieldKey = u.opts.canonicalKey(fieldKey)
+		}
+
 		_, hasValue := getValue(m, fieldKey, u.opts.opaqueKeys)
 		if hasValue {
 			if !filled {
